@@ -279,3 +279,36 @@ def noop_module(src: str) -> str:
     tree = ast.parse(src)
     _Noop().visit(tree)
     return ast.unparse(ast.fix_missing_locations(tree)) + "\n"
+
+
+class _NoElseReturn(ast.NodeTransformer):
+    """pylint's no-else-return / no-else-raise / no-else-continue: `if c: ...; return x  else: B` -> `if c: ...; return x` + B."""
+
+    def _block(self, stmts):
+        out = []
+        for st in stmts:
+            st = self.visit(st)
+            if isinstance(st, ast.If) and st.orelse and st.body and isinstance(st.body[-1], (ast.Return, ast.Raise, ast.Continue, ast.Break)) \
+                    and not (len(st.orelse) == 1 and isinstance(st.orelse[0], ast.If)):
+                tail = st.orelse
+                st.orelse = []
+                out.append(st)
+                out.extend(tail)
+            else:
+                out.append(st)
+        return out
+
+    def generic_visit(self, node):
+        super().generic_visit(node)
+        for fld in ("body", "orelse", "finalbody"):
+            v = getattr(node, fld, None)
+            if isinstance(v, list) and v and isinstance(v[0], ast.stmt):
+                setattr(node, fld, self._block(v))
+        return node
+
+
+def no_else_return_module(src: str) -> str:
+    tree = ast.parse(src)
+    t = _NoElseReturn()
+    t.generic_visit(tree)
+    return ast.unparse(ast.fix_missing_locations(tree)) + "\n"
